@@ -212,10 +212,11 @@ def _has_tparams(toks):
 
 # ---------------------------------------------------------------- rendering
 class Layout:
-    def __init__(self, name='plain', indent='    ', nl='\n', bom=False, final_nl=True, ident_map=None, spread=False, comments=False):
+    def __init__(self, name='plain', indent='    ', nl='\n', bom=False, final_nl=True, ident_map=None, spread=False, comments=False, trivia_run=0):
         self.name, self.indent, self.nl, self.bom, self.final_nl, self.ident_map = name, indent, nl, bom, final_nl, ident_map or {}
         self.spread = spread  # line-spread: every bracketed element on its own (indented) line
         self.comments = comments  # a comment after every line, then a comment-only line and a blank line
+        self.trivia_run = trivia_run  # after every line: that many blank lines and that many comment-only lines (column 0)
 
 
 PLAIN = Layout()
@@ -230,6 +231,7 @@ LAYOUTS = {
     'comments-crlf-tab': Layout('comments-crlf-tab', comments=True, nl='\r\n', indent='\t'),
     'spread-comments': Layout('spread-comments', spread=True, comments=True),
     'spread': Layout('spread', spread=True),
+    'trivia-run': Layout('trivia-run', trivia_run=9),
     'spread-crlf': Layout('spread-crlf', spread=True, nl='\r\n', ident_map={'a': 'é'}),
     'multibyte': Layout('multibyte', ident_map={'a': 'é', 't': '名', 'm': 'ñ', "'s'": "'日本'", 'f': 'ƒ', 'p': 'π', 'k': 'ключ', 'C': 'Ç', 'x': 'ξ'}),
 }
@@ -268,6 +270,11 @@ def render(toks, layout=PLAIN, spans=None):
             p += len(extra.encode())
             lineno += 2
         s += layout.nl
+        if layout.trivia_run:
+            extra = layout.nl * layout.trivia_run + ('#' + layout.nl) * layout.trivia_run
+            s += extra
+            p += len(extra.encode())
+            lineno += 2 * layout.trivia_run
         out.append(s)
         pos = p + len(layout.nl)
         line = []
